@@ -64,6 +64,8 @@ def eventOf : List String → Option Event
   | ["emp", c] => c.toNat?.map (fun c => .hs c .empty .zero .none)
   | ["ban", i] => i.toNat?.map .ban
   | ["unban", i] => i.toNat?.map .unban
+  | ["banp", i] => i.toNat?.map .banp
+  | ["bans", i] => i.toNat?.map .bans
   | ["bl", i] => i.toNat?.map .bl
   | ["unbl", i] => i.toNat?.map .unbl
   | ["blr", i] => i.toNat?.map .blr
